@@ -694,6 +694,9 @@ func parseType(ctx context.Context, t *parser.Type, tree *parser.Thrift, cache c
 			if isRequestBase || isResponseBase {
 				ty.struc.baseID = FieldID(field.ID)
 			}
+			if field.ID < 0 {
+				return nil, fmt.Errorf("field '%s' of struct '%s': negative field id %d is not supported", field.Name, st.Name, field.ID)
+			}
 			_f := &FieldDescriptor{
 				isRequestBase:  isRequestBase,
 				isResponseBase: isResponseBase,
